@@ -162,8 +162,12 @@ def merge_evidence(prop, tier, seed, out_dir, wall, nviol, level="exploration", 
     for fn in sorted(os.listdir(out_dir)):
         if not (fn.startswith("shard-" + prop + "-") and fn.endswith(".json")):
             continue
-        with open(os.path.join(out_dir, fn)) as f:
-            s = json.load(f)
+        try:
+            with open(os.path.join(out_dir, fn)) as f:
+                s = json.load(f)
+        except (OSError, ValueError) as e:
+            ev["notes"].append("unreadable shard evidence %s (%s): its counts are missing" % (fn, type(e).__name__))
+            continue
         ev["evaluations"] += s.get("evaluations", 0)
         ev["keys"].update(s.get("nontrivial_keys") or [])
         for k, v in (s.get("classes") or {}).items():
